@@ -48,6 +48,7 @@ type Server struct {
 	mu    sync.Mutex
 	DBs   map[int]map[string]*Val
 	Hist  []Event
+	Scripts [][]byte
 	conns int
 	Opts  Options
 	scan  map[string]int // per conn+db cursor
@@ -415,19 +416,23 @@ func (s *Server) exec(st *connState, args [][]byte) string {
 				replace = true
 			}
 		}
-		if s.Opts.MaxDumpType > 0 && len(args[3]) > 0 && int(args[3][0]) > s.Opts.MaxDumpType {
-			return "-ERR Bad data format\r\n"
-		}
+		// Redis checks the key first, then the payload
 		if _, ok := d[string(args[1])]; ok && !replace {
 			if s.Opts.OldBusyText {
 				return "-ERR Target key name is busy.\r\n"
 			}
 			return "-BUSYKEY Target key name already exists.\r\n"
 		}
+		if s.Opts.MaxDumpType > 0 && len(args[3]) > 0 && int(args[3][0]) > s.Opts.MaxDumpType {
+			return "-ERR Bad data format\r\n"
+		}
 		ttl, _ := strconv.ParseInt(string(args[2]), 10, 64)
 		d[string(args[1])] = &Val{Kind: "dump", S: append([]byte{}, args[3]...), TTL: ttl}
 		return "+OK\r\n"
 	case "script":
+		if argc >= 3 && strings.ToLower(string(args[1])) == "load" {
+			s.Scripts = append(s.Scripts, append([]byte{}, args[2]...))
+		}
 		return bulk([]byte("da39a3ee5e6b4b0d3255bfef95601890afd80709"))
 	case "dbsize":
 		return fmt.Sprintf(":%d\r\n", len(d))
